@@ -292,3 +292,26 @@ SVH_CMD(dalg) {
         }
     }
 }
+
+// #demsampler W seed shots ; dem -> per shot "D bits" "O bits" "E bits" straight from DemSampler<W>'s buffers after resample()
+template <size_t W>
+static void demsampler(const Req &req, std::ostream &out) {
+    uint64_t seed = (uint64_t)req.iarg(1, 0);
+    size_t shots = (size_t)req.iarg(2, 1);
+    DetectorErrorModel d(req.payload());
+    DemSampler<W> sampler(d, std::mt19937_64(seed), shots);
+    sampler.resample(false);
+    for (size_t s = 0; s < shots; s++) {
+        std::string a, b, c;
+        for (size_t k = 0; k < sampler.num_detectors; k++) a += sampler.det_buffer[k][s] ? '1' : '0';
+        for (size_t k = 0; k < sampler.num_observables; k++) b += sampler.obs_buffer[k][s] ? '1' : '0';
+        for (size_t k = 0; k < sampler.num_errors; k++) c += sampler.err_buffer[k][s] ? '1' : '0';
+        out << "D " << a << "\nO " << b << "\nE " << c << "\n";
+    }
+}
+SVH_CMD(demsampler) {
+    long long w = req.iarg(0, 64);
+    if (w == 64) demsampler<64>(req, out);
+    else if (w == 128) demsampler<128>(req, out);
+    else demsampler<256>(req, out);
+}
